@@ -452,6 +452,58 @@ impl Inner {
         h.to_err()
     }
 
+    /// POSIX mkdir(2).
+    fn mkdir(&mut self, path: &Path) -> io::Result<()> {
+        // mkdir("x/") is mkdir("x")
+        let b = path.as_os_str().as_bytes();
+        let mut n = b.len();
+        while n > 1 && b[n - 1] == b'/' {
+            n -= 1;
+        }
+        let key = self.resolve(Path::new(std::ffi::OsStr::from_bytes(&b[..n])))?;
+        if self.nodes.contains_key(&key) {
+            return Err(eexist());
+        }
+        let parent = Inner::parent_of(&key);
+        match self.nodes.get(&parent) {
+            Some(Node::Dir) => {}
+            Some(Node::File(_)) => return Err(enotdir()),
+            None => return Err(enoent()),
+        }
+        self.nodes.insert(key.clone(), Node::Dir);
+        self.mutated(Mutation::Mkdir, &key);
+        Ok(())
+    }
+
+    fn is_dir(&self, path: &Path) -> bool {
+        match self.resolve(path) {
+            Ok(k) => matches!(self.nodes.get(&k), Some(Node::Dir)),
+            Err(_) => false,
+        }
+    }
+
+    /// The algorithm of std::fs::DirBuilder::create_dir_all, over mkdir above.
+    fn mkdir_all(&mut self, path: &Path) -> io::Result<()> {
+        if path == Path::new("") {
+            return Ok(());
+        }
+        match self.mkdir(path) {
+            Ok(()) => return Ok(()),
+            Err(ref e) if e.kind() == io::ErrorKind::NotFound => {}
+            Err(_) if self.is_dir(path) => return Ok(()),
+            Err(e) => return Err(e),
+        }
+        match path.parent() {
+            Some(p) => self.mkdir_all(p)?,
+            None => return Err(io::Error::new(io::ErrorKind::Other, "failed to create whole tree")),
+        }
+        match self.mkdir(path) {
+            Ok(()) => Ok(()),
+            Err(_) if self.is_dir(path) => Ok(()),
+            Err(e) => Err(e),
+        }
+    }
+
     fn mutated(&mut self, kind: Mutation, key: &[u8]) {
         let op = self.cur_op;
         self.mutations.push(MutationRec {
@@ -760,6 +812,23 @@ impl Backend for SimFs {
         let key = match i.resolve(path) {
             Ok(k) => k,
             Err(e) => {
+                // Linux: O_CREAT on "file/" is EISDIR, without O_CREAT it is ENOTDIR
+                let e = if spec.create && e.raw_os_error() == Some(libc::ENOTDIR) && path.as_os_str().as_bytes().ends_with(b"/") {
+                    let trimmed: Vec<u8> = {
+                        let b = path.as_os_str().as_bytes();
+                        let mut n = b.len();
+                        while n > 1 && b[n - 1] == b'/' {
+                            n -= 1;
+                        }
+                        b[..n].to_vec()
+                    };
+                    match i.resolve(Path::new(std::ffi::OsStr::from_bytes(&trimmed))) {
+                        Ok(k) if matches!(i.nodes.get(&k), Some(Node::File(_))) => eisdir(),
+                        _ => e,
+                    }
+                } else {
+                    e
+                };
                 i.done(Call::Open, Done::NaturalErr, what);
                 return Err(e);
             }
@@ -1176,49 +1245,9 @@ impl Backend for SimFs {
         if let Some(h) = i.step(Call::CreateDirAll, path.as_os_str().as_bytes()) {
             return Err(i.hostile(Call::CreateDirAll, h, what));
         }
-        let bytes = path.as_os_str().as_bytes();
-        if bytes.is_empty() {
-            // std: create_dir_all("") is Ok(())
-            i.done(Call::CreateDirAll, Done::Ok, what);
-            return Ok(());
-        }
-        let mut cur: Vec<u8> = Vec::new();
-        let comps: Vec<&[u8]> = bytes.split(|b| *b == b'/').filter(|c| !c.is_empty()).collect();
-        let n_comps = comps.len();
-        for (ci, c) in comps.into_iter().enumerate() {
-            if c == b"." {
-                continue;
-            }
-            if c == b".." {
-                if let Some(pos) = cur.iter().rposition(|b| *b == b'/') {
-                    cur.truncate(pos);
-                }
-                continue;
-            }
-            cur.push(b'/');
-            cur.extend_from_slice(c);
-            let state = match i.nodes.get(&cur) {
-                Some(Node::Dir) => 0,
-                Some(Node::File(_)) => 1,
-                None => 2,
-            };
-            match state {
-                0 => {}
-                1 => {
-                    // a file in the way: mkdir gives EEXIST for the last component, ENOTDIR beyond
-                    let last = ci + 1 == n_comps;
-                    i.done(Call::CreateDirAll, Done::NaturalErr, what);
-                    return Err(if last { eexist() } else { enotdir() });
-                }
-                _ => {
-                    i.nodes.insert(cur.clone(), Node::Dir);
-                    let c2 = cur.clone();
-                    i.mutated(Mutation::Mkdir, &c2);
-                }
-            }
-        }
-        i.done(Call::CreateDirAll, Done::Ok, what);
-        Ok(())
+        let r = i.mkdir_all(path);
+        i.done(Call::CreateDirAll, if r.is_ok() { Done::Ok } else { Done::NaturalErr }, what);
+        r
     }
 
     fn remove_file(&self, path: &Path) -> io::Result<()> {
@@ -1298,7 +1327,34 @@ impl Backend for SimFs {
             i.done(Call::RemoveDirAll, Done::NaturalErr, what);
             return Err(einval());
         }
+        if matches!(i.nodes.get(&key), Some(Node::File(_))) {
+            // std::fs::remove_dir_all refuses a regular file
+            i.done(Call::RemoveDirAll, Done::NaturalErr, what);
+            return Err(enotdir());
+        }
+        let last_is_dot = path
+            .as_os_str()
+            .as_bytes()
+            .split(|b| *b == b'/')
+            .filter(|c| !c.is_empty())
+            .last()
+            .map(|c| c == b".")
+            .unwrap_or(false);
         let mut doomed = i.subtree(&key);
+        if last_is_dot {
+            // the contents go, then rmdir(".") fails with EINVAL
+            for k in doomed {
+                if let Some(Node::File(d)) = i.nodes.remove(&k) {
+                    if Rc::strong_count(&d) == 1 {
+                        let cap = d.borrow().capacity();
+                        i.note_storage(cap, 0);
+                    }
+                }
+            }
+            i.mutated(Mutation::Rmtree, &key);
+            i.done(Call::RemoveDirAll, Done::NaturalErr, what);
+            return Err(einval());
+        }
         doomed.push(key.clone());
         for k in doomed {
             if let Some(Node::File(d)) = i.nodes.remove(&k) {
